@@ -565,7 +565,12 @@ func zzC04Cancel() {
 	w.nextCtx++
 	ctx := zzNewCtx(w.nextCtx)
 	got := false
-	switch vChoose("attempt", 3) {
+	switch vChoose("attempt", 4) {
+	case 3:
+		// a TryLock whose context ends at any point, also while its storage call is in flight: whatever it
+		// answers, a false answer leaves nothing behind
+		vSpawn("canceller", func() { ctx.cancel() })
+		got = cl.TryLock(ctx)
 	case 0:
 		ctx.cancel()
 		err := cl.LockWithCtx(ctx)
